@@ -61,6 +61,7 @@ def judge_cases(ctx: Ctx, cases, kind="c11"):
             r["t"], r["i"] = len(lines), 0
             lines.append(r)
     ctx.count(len(lines))
+    ctx.notes.setdefault("phase_s", {})["recorded"] = round(ctx.elapsed(), 1)
     for k, c in enumerate(cases):
         ln = lines[k]
         if ln["status"] in (206, 304, 412, 416):
@@ -81,17 +82,95 @@ def judge_cases(ctx: Ctx, cases, kind="c11"):
     return lines
 
 
+def _model_checks(ctx: Ctx, jobs):
+    """jobs: (module, cfg, must_violate).  Run concurrently (TLC with few workers each)."""
+    import concurrent.futures as cf
+
+    per = max(1, ctx.workers // 3)
+
+    def one(job):
+        module, cfg, must_violate = job
+        if must_violate:
+            r = tlc.run_tlc(AREA, module, cfg, workers=per, tmp=ctx.tmp, allow_violation=True, timeout=900)
+            if not r.invariant_violated:
+                raise MachineryError(f"broken model variant {cfg} passes: the invariants may be vacuous")
+            return cfg, r.invariant_violated
+        ctx.model_check(AREA, module, cfg, workers=per, timeout=3000)
+        return cfg, None
+
+    broken = {}
+    with cf.ThreadPoolExecutor(max_workers=3) as ex:
+        for cfg, inv in ex.map(one, jobs):
+            if inv:
+                broken[cfg] = inv
+    ctx.notes["broken_model_variants_violate"] = broken
+
+
 def run(ctx: Ctx):
     q = ctx.quick
     ctx.rule = ("case = (api, method, If-None-Match / If-Match / If-Modified-Since / If-Range / Range texts, ETag, last-modified with "
                 "microseconds, length, body shape, blocks) executed on Response.make_conditional / send_file / is_resource_modified and "
-                "judged by TLC from the header texts; non-trivial = distinct cases answered 206 / 304 / 412 / 416")
-    cases = []
-    cases += cd.validator_cases()
-    cases += cd.ifrange_cases()
-    cases += cd.range_cases(4 if q else 8, [1, 3] if q else [1, 2, 3, 4, 7])
+                "judged by TLC from the header texts; cases: TLC-exported model cases, the validator product, the If-Range family, every "
+                "range spec around every length x shape x block size, block compositions with empty blocks, seeded random cases; "
+                "non-trivial = distinct cases answered 206 / 304 / 412 / 416")
+    ctx.assumptions += [
+        "domain: one of If-None-Match / If-Match per request, If-Match only against responses with an ETag; Range is combined with "
+        "If-Range only (Range together with If-None-Match / If-Modified-Since is not judged: werkzeug answers 206 where RFC 7232 "
+        "section 6 evaluates the validators first)",
+        "header texts carry no leading / trailing white space; white space is SP / HTAB; dates are IMF-fixdate or the numeric-zone "
+        "RFC 2822 form (other forms accepted by email.utils are not generated)",
+        "accepted either way (documentation / RFC leave it open): malformed If-None-Match / If-Match lists (incl. lower-case w/, "
+        "unquoted tags), If-None-Match against a response without ETag, an If-Range date later than Last-Modified, Range against a "
+        "zero-length or unknown-length resource (documented: skipped), other range units (RFC: ignore, werkzeug: 416), white space "
+        "inside a range-spec / empty list elements (416 or the cleaned spec), 206 answered to HEAD with the headers of the GET answer",
+        "a satisfiable single range may be answered by the complete 200 body (the property demands soundness of a 206, not that one "
+        "is produced); such answers are reported as drift when the length was known",
+        "If-Match precedes If-Modified-Since: with If-Match present no 304 is demanded",
+    ]
+    # 1. model checking
+    jobs = [("MCRangeBody", "MCRB_Q_fixed", False), ("MCConditional", "MCQ_validators", False), ("MCConditional", "MCQ_ranges", False),
+            ("MCRangeBody", "MCRB_Q_orig", True)]
+    jobs += [("MCConditional", "MCV_" + d, True) for d in ("im_star", "suffix0", "oversuffix", "ifr_weak", "ims_lt", "no_prec", "off_by_one")]
+    if not q:
+        jobs = [("MCRangeBody", "MCRB_T_fixed", False), ("MCConditional", "MCT_ranges", False)] + jobs
+    _model_checks(ctx, jobs)
+    ctx.exhaustive = True
+    ctx.notes["phase_s"] = {"model_check": round(ctx.elapsed(), 1)}
+    # 2. spec -> code
     rng = random.Random(ctx.seed)
-    for _ in range(4000 if q else 150000):
+    cases = []
+    exported = 0
+    for cfg in (("MCX_validators", "MCX_ranges") if q else ("MCXT_validators", "MCXT_ranges")):
+        vals = [v for v in ctx.export(AREA, "MCConditional", cfg, count_states=False, timeout=3000) if isinstance(v, dict) and "req" in v]
+        exported += len(vals)
+        if q and len(vals) > 4000:
+            vals = rng.sample(vals, 4000)
+        cases += [cd.case_of_model(v) for v in vals]
+    vals = [v for v in ctx.export(AREA, "MCRangeBody", "MCRBX_q" if q else "MCRBX_t", count_states=False, timeout=3000)
+            if isinstance(v, dict) and "src" in v]
+    exported += len(vals)
+    cases += [cd.case_of_rangebody(v) for v in vals]
+    ctx.notes["phase_s"]["export"] = round(ctx.elapsed(), 1)
+    ctx.notes["model_cases_exported"] = exported
+    ctx.notes["model_cases_replayed"] = len(cases)
+    # 3. code -> spec
+    if q:
+        cases += cd.validator_cases(wide=False, methods=("GET",))
+        cases += cd.validator_cases(wide=False, apis=("mc",), methods=("HEAD", "POST"))[ctx.seed % 3::3]
+        cases += cd.ifrange_cases(lengths=(0, 3), shapes=("list",))
+    else:
+        cases += cd.validator_cases()
+        cases += cd.validator_cases(apis=("sf",), methods=("GET",), wide=False)
+        cases += cd.ifrange_cases(lengths=(0, 1, 4), shapes=("list", "file", "pipe", "gen"))
+    cases += cd.range_cases(4 if q else 9, [1, 3] if q else [1, 2, 3, 4, 7])
+    cases += cd.range_cases(3 if q else 6, [2], shapes=("file", "pipe"), methods=("GET", "HEAD") if q else ("GET", "HEAD", "POST"), apis=("sf",))
+    for n in range(1, 5 if q else 8):
+        for comp in cd.compositions(n):
+            for rg in ([f"bytes=0-{n - 1}", "bytes=1-", "bytes=-2"] if q else
+                       [f"bytes={a}-{b}" for a in range(n) for b in range(a, n)] + ["bytes=-1", "bytes=1-"]):
+                cases.append({"api": "mc", "method": "GET", "length": n, "shape": "gen" if len(comp) % 2 else "list", "blocks": comp,
+                              "range": rg})
+    for _ in range(3000 if q else 100000):
         cases.append(cd.random_case(rng))
     judge_cases(ctx, cases)
 
